@@ -32,6 +32,23 @@ Changes with respect to the first draft of the statements (each needed, see the 
   `LawfulTime` laws and is needed to compare `setClock + delay` of two timers;
 * `hlen` asks for four draws per action of one handler call instead of 64 draws: a cross-node send consumes four draws,
   and an exhausted stream yields a delay the laws say nothing about.
+
+Generalisation for R5 (so that the relation also holds between a simulator state and the reference state of its
+snapshot, `R5Rel.timedRel_snapshot`; all theorems above keep their names and the shape of their conclusions):
+
+* `TimerRel.ghostsSorted` (ghosts in creation order) is replaced by `ghostsNodup` (event ids pairwise distinct) and
+  `ghostsTie` (of two ghosts with the same firing time the earlier one in the list has the smaller id); with
+  `ghostMono` this is all `popped_timer_unblocked` needs: an earlier pending timer of the same process with a
+  less-or-equal delay would fire no later than the popped event, hence (minimality of the popped event) at the same
+  time, hence has the smaller id — contradicting minimality;
+* `TimerRel.ghostsCover` speaks about all live timer events, not only the deliverable ones: every live timer event is
+  addressed to a node with handler (`TimerRel.timerLive`); the snapshot takes over every live timer event;
+* `FlightRel` relates the flights of the reference state to the deliverable message copies as multisets of
+  (message, source, destination) triples (`Flight.key`) and asks every flight to carry options that permit no fault
+  (`Opts.noFault`) instead of prescribing the options `zeroOpts`;
+* `NetRel.handlersOk` (a node has a handler iff it exists and is not marked crashed) and `NetRel.nodesSorted` are
+  new invariants of the simulator state alone; `timedRel_of_quiet` asks for `KSorted q.nodes` instead of distinct keys;
+* `netRel_snapshotNet`, `tprocRel_flat` are the two halves of the proof of `timedRel_of_quiet` that `R5Rel` reuses.
 -/
 namespace Anysystem
 
@@ -90,14 +107,16 @@ theorem sim_step_refines_partial [LawfulTime T] (bits : T → Nat) (h : Handler 
       have hrun := onMessage_run _ _ _ _ _ _ _ _ _ hdel
       obtain ⟨hdn, hld, hls⟩ := hr.queue.msgLoc e f5 mid m src sn dst dn hd
       have hed : e ∈ q.deliverable := (mem_deliverable q e).2 ⟨f5, hdst⟩
-      have hfm : (⟨m, src, dst, zeroOpts q.net.procLoc r.net.maxDelay src dst⟩ : Flight) ∈ r.flights := by
-        rw [hr.flights.mem_iff, List.mem_filterMap]
+      -- some flight of the reference state carries the triple of the popped copy; take the oldest such flight
+      have hkm : (m, src, dst) ∈ r.flights.map Flight.key := by
+        rw [hr.flights.perm.mem_iff, List.mem_filterMap]
         exact ⟨e, hed, by rw [hd]; rfl⟩
-      obtain ⟨fl, hfl⟩ : ∃ fl : Flight, fl = ⟨m, src, dst, zeroOpts q.net.procLoc r.net.maxDelay src dst⟩ := ⟨_, rfl⟩
-      rw [← hfl] at hfm
-      obtain ⟨g1, g2, g3⟩ := firstIdx_spec fl r.flights hfm
-      have hrel1 := r4_pop_msg hr hf hne hdst hd (r.afterDeliver (firstIdx fl r.flights) fl) rfl rfl rfl rfl
-        (by rw [← hfl]; exact g2)
+      obtain ⟨fl, g1, g2, g4, g3⟩ := firstKeyIdx_spec (m, src, dst) r.flights hkm
+      obtain ⟨i, hi⟩ : ∃ i, i = firstKeyIdx (m, src, dst) r.flights := ⟨_, rfl⟩
+      rw [← hi] at g1 g3 g4
+      simp only [Flight.key, Prod.mk.injEq] at g2
+      obtain ⟨hflm, hfls, hfld⟩ := g2
+      have hrel1 := r4_pop_msg hr hf hne hdst hd (r.afterDeliver i fl) i rfl rfl rfl rfl rfl (List.Perm.of_eq g4)
       have hrelA := (hrel1.sameView (sameView_log s1 (.recv s1.clock mid sn src e.dst dst m))).sameView
         (sameView_updProc _ e.dst dst (fun e => { e with log := e.log ++ [⟨s1.clock, .recv m src dst⟩], recv := e.recv + 1 })
           (fun _ => rfl))
@@ -117,7 +136,7 @@ theorem sim_step_refines_partial [LawfulTime T] (bits : T → Nat) (h : Handler 
             | some pe => exact ⟨pe, by rw [proc?_eq hn]; exact hp⟩
       obtain ⟨pe, hpe⟩ := hex
       have hpeq : q.proc? e.dst dst = some pe := by rw [← proc?_of_nodes f9]; exact hpe
-      have hctx : (r.afterDeliver (firstIdx fl r.flights) fl).Ctx e.dst dst := by
+      have hctx : (r.afterDeliver i fl).Ctx e.dst dst := by
         refine ⟨?_, ?_, hncr⟩
         · show amGet? dst r.net.procLoc = some e.dst
           rw [hr.net.netLoc, hdn]; exact hld
@@ -125,7 +144,7 @@ theorem sim_step_refines_partial [LawfulTime T] (bits : T → Nat) (h : Handler 
           rw [(hr.proc.procs e.dst dst pe hpeq).1]; rfl
       obtain ⟨r', gs', hreact, hfin⟩ := handler_tail h hrelA hctx (by simpa [log, f10] using hdraws)
         (by simpa [log, f10] using hlen) haok (.msg m src) hrun
-      refine ⟨.deliver (firstIdx fl r.flights), r', gs', ?_, ?_, hfin⟩
+      refine ⟨.deliver i, r', gs', ?_, ?_, hfin⟩
       · -- the delivered copy is the oldest among identical flights
         show r.oldestIdentical _ = true
         unfold RState.oldestIdentical
@@ -134,25 +153,17 @@ theorem sim_step_refines_partial [LawfulTime T] (bits : T → Nat) (h : Handler 
         rw [List.all_eq_true]
         intro g hg
         have hgne := g3 g hg
-        have hgmem : g ∈ r.flights := List.mem_of_mem_take hg
-        rw [hr.flights.mem_iff, List.mem_filterMap] at hgmem
-        obtain ⟨x, _, hxg⟩ := hgmem
-        cases hxd : x.data with
-        | timer p' name' => rw [hxd] at hxg; cases hxg
-        | msg mid' m' src' sn' dst' dn' =>
-          rw [hxd] at hxg
-          simp only [flightOfQ, Option.some.injEq] at hxg
-          subst hxg
-          subst hfl
-          cases hb : (decide (m' = m) && src' == src && dst' == dst) with
-          | false => simp [hb]
-          | true =>
-            simp only [Bool.and_eq_true, decide_eq_true_eq, beq_iff_eq] at hb
-            obtain ⟨⟨rfl, rfl⟩, rfl⟩ := hb
-            exact absurd rfl hgne
+        rw [hflm, hfls, hfld]
+        cases hb : (decide (g.m = m) && g.src == src && g.dst == dst) with
+        | false => rfl
+        | true =>
+          simp only [Bool.and_eq_true, decide_eq_true_eq, beq_iff_eq] at hb
+          obtain ⟨⟨h1, h2⟩, h3⟩ := hb
+          exact absurd (by simp [Flight.key, h1, h2, h3]) hgne
       · show r.step h (.deliver _) = some r'
         simp only [RState.step, g1]
-        subst hfl
+        show RState.react h (r.afterDeliver i fl) fl.dst (.msg fl.m fl.src) = some r'
+        rw [hfld, hflm, hfls]
         exact hreact
     | timer p name =>
       rw [hd] at hdel
@@ -187,22 +198,17 @@ theorem sim_step_refines_partial [LawfulTime T] (bits : T → Nat) (h : Handler 
 
 /-! ## the relation holds for a freshly built simulator state with an empty queue -/
 
-/-- the snapshot of a related simulator state is the reference state: what `ModelChecker::new` hands to the
-    checker is related (`Sim'`, R2) to a reference state with the same flights (as a multiset) and timers -/
-theorem timedRel_of_quiet [LawfulTime T] (bits : T → Nat) (q : Sim σ T) (hq : q.events = []) (hc : q.canceled = [])
+/-- the network part of the relation for the checker's network settings `snapshotNet` (used for quiet states here and
+    for arbitrary related states in `R5Rel`) -/
+theorem netRel_snapshotNet [LawfulTime T] (bits : T → Nat) (q : Sim σ T) (r : RState σ)
     (hrates : q.net.dropRate = TimeOps.zero ∧ q.net.duplRate = TimeOps.zero ∧ q.net.corruptRate = TimeOps.zero)
-    (hdel : TimeOps.le TimeOps.zero q.net.minDelay = true ∧ TimeOps.le q.net.minDelay q.net.maxDelay = true)
-    (hpend : ∀ n nd p e, amGet? n q.nodes = some nd → amGet? p nd.procs = some e → e.pending = [])
-    (hloc : ∀ n nd p e, amGet? n q.nodes = some nd → amGet? p nd.procs = some e → amGet? p q.net.procLoc = some n)
     (hlocNodes : ∀ p n, amGet? p q.net.procLoc = some n → amHas n q.nodes = true)
     (hhand : ∀ n, n ∈ q.handlers ↔ (∃ nd, amGet? n q.nodes = some nd ∧ nd.crashed = false))
-    (hnodes : (q.nodes.map (·.1)).Nodup) :
-    TimedRel bits q
-      { procs := q.nodes.flatMap (fun nd => nd.2.procs.map fun pe => (pe.1, ({ st := pe.2.st, outbox := pe.2.outbox } : RProc σ))),
-        crashedNodes := (q.nodes.filter (fun nd => !q.handlers.contains nd.1)).map (·.1),
-        net := (snapshotNet bits q) } [] := by
-  have hlive : q.live = [] := by unfold live; rw [hq]; rfl
-  have hdeliv : q.deliverable = [] := by unfold deliverable; rw [hlive]; rfl
+    (hsorted : KSorted q.nodes)
+    (hnet : r.net = snapshotNet bits q)
+    (hcr : ∀ n, n ∈ r.crashedNodes ↔ (amHas n q.nodes = true ∧ ¬ n ∈ q.handlers)) :
+    NetRel bits q r := by
+  have hnodes : (q.nodes.map (·.1)).Nodup := hsorted.nodup
   have hzz : TimeOps.lt (TimeOps.zero : T) TimeOps.zero = false := by
     cases hlt : TimeOps.lt (TimeOps.zero : T) TimeOps.zero with
     | false => rfl
@@ -238,9 +244,9 @@ theorem timedRel_of_quiet [LawfulTime T] (bits : T → Nat) (q : Sim σ T) (hq :
     constructor
     · rintro ⟨nd', h1, h2⟩; rw [hn] at h1; rw [Option.some.inj h1]; exact h2
     · intro h2; exact ⟨nd, hn, h2⟩
-  refine ⟨⟨hrates, ?_, s1, ?_, s8, ?_, hlocNodes⟩, ⟨?_, ?_⟩, ⟨?_, ?_, ?_, hdel, ?_, ?_⟩,
-    ⟨rfl, List.Pairwise.nil, ?_, ?_, ?_, List.Pairwise.nil, ?_, ?_, List.Pairwise.nil⟩, ?_⟩
+  refine ⟨hrates, ?_, by rw [hnet]; exact s1, ?_, by rw [hnet]; exact s8, hcr, hlocNodes, hhand, hsorted⟩
   · -- netFlags
+    rw [hnet]
     refine ⟨?_, ?_, ?_⟩
     · show (snapshotNet bits q).dropPos = false
       unfold snapshotNet; simp only; rw [s3, hrates.1]; exact hzz
@@ -250,6 +256,7 @@ theorem timedRel_of_quiet [LawfulTime T] (bits : T → Nat) (q : Sim σ T) (hq :
       unfold snapshotNet; simp only; rw [s4, hrates.2.2]; exact hzz
   · -- netCut
     intro a b ha hb
+    rw [hnet]
     rw [amHas_eq] at hb
     cases hgb : amGet? b q.nodes with
     | none => rw [hgb] at hb; cases hb
@@ -273,32 +280,33 @@ theorem timedRel_of_quiet [LawfulTime T] (bits : T → Nat) (q : Sim σ T) (hq :
         | true => exact absurd hcb h3
       · rintro ⟨⟨⟨h1, h2⟩, h4⟩, h5⟩
         exact ⟨⟨⟨h1, ha'⟩, h2, by rw [h5]; simp⟩, h4⟩
-  · -- crashed
-    intro n
-    simp only [List.mem_map, List.mem_filter, Bool.not_eq_true', List.contains_eq_mem, decide_eq_false_iff_not]
-    rw [amHas_eq, amGet?_isSome_iff]
-    constructor
-    · rintro ⟨x, ⟨hx, hxh⟩, rfl⟩
-      exact ⟨List.mem_map_of_mem hx, hxh⟩
-    · rintro ⟨hm, hh⟩
-      obtain ⟨x, hx, rfl⟩ := List.mem_map.1 hm
-      exact ⟨x, ⟨hx, hh⟩, rfl⟩
+
+/-- the process part of the relation for the process table read off the node table -/
+theorem tprocRel_flat (q : Sim σ T) (r : RState σ)
+    (hloc : ∀ n nd p e, amGet? n q.nodes = some nd → amGet? p nd.procs = some e → amGet? p q.net.procLoc = some n)
+    (hnodes : (q.nodes.map (·.1)).Nodup)
+    (hp : r.procs = q.nodes.flatMap
+      (fun nd => nd.2.procs.map fun pe => (pe.1, ({ st := pe.2.st, outbox := pe.2.outbox } : RProc σ)))) :
+    TProcRel q r := by
+  refine ⟨?_, ?_⟩
   · -- procs
     intro n p e he
-    obtain ⟨nd, hn, hp⟩ := proc?_some he
-    refine ⟨?_, hloc n nd p e hn hp⟩
-    refine flat_lookup q.nodes n p nd e hn hp ?_
+    obtain ⟨nd, hn, hp'⟩ := proc?_some he
+    refine ⟨?_, hloc n nd p e hn hp'⟩
+    rw [hp]
+    refine flat_lookup q.nodes n p nd e hn hp' ?_
     intro x hx hsome
     cases hq' : amGet? p x.2.procs with
     | none => rw [hq'] at hsome; cases hsome
     | some e' =>
       have hgx := amGet?_of_mem_nodup hnodes (k := x.1) (v := x.2) hx
       have h1 := hloc x.1 x.2 p e' hgx hq'
-      have h2 := hloc n nd p e hn hp
+      have h2 := hloc n nd p e hn hp'
       rw [h1] at h2
       exact Option.some.inj h2
   · -- procsBack
     intro p rp hrp
+    rw [hp] at hrp
     have hm := amGet?_eq_some_mem hrp
     simp only [List.mem_flatMap, List.mem_map] at hm
     obtain ⟨x, hx, pe, hpe, hpeq⟩ := hm
@@ -312,13 +320,43 @@ theorem timedRel_of_quiet [LawfulTime T] (bits : T → Nat) (q : Sim σ T) (hq :
     | some e' =>
       have hgx := amGet?_of_mem_nodup hnodes (k := x.1) (v := x.2) hx
       exact ⟨x.1, e', by rw [proc?_eq hgx]; exact hq'⟩
+
+/-- the snapshot of a related simulator state is the reference state: what `ModelChecker::new` hands to the
+    checker is related (`Sim'`, R2) to a reference state with the same flights (as a multiset) and timers -/
+theorem timedRel_of_quiet [LawfulTime T] (bits : T → Nat) (q : Sim σ T) (hq : q.events = []) (hc : q.canceled = [])
+    (hrates : q.net.dropRate = TimeOps.zero ∧ q.net.duplRate = TimeOps.zero ∧ q.net.corruptRate = TimeOps.zero)
+    (hdel : TimeOps.le TimeOps.zero q.net.minDelay = true ∧ TimeOps.le q.net.minDelay q.net.maxDelay = true)
+    (hpend : ∀ n nd p e, amGet? n q.nodes = some nd → amGet? p nd.procs = some e → e.pending = [])
+    (hloc : ∀ n nd p e, amGet? n q.nodes = some nd → amGet? p nd.procs = some e → amGet? p q.net.procLoc = some n)
+    (hlocNodes : ∀ p n, amGet? p q.net.procLoc = some n → amHas n q.nodes = true)
+    (hhand : ∀ n, n ∈ q.handlers ↔ (∃ nd, amGet? n q.nodes = some nd ∧ nd.crashed = false))
+    (hnodes : KSorted q.nodes) :
+    TimedRel bits q
+      { procs := q.nodes.flatMap (fun nd => nd.2.procs.map fun pe => (pe.1, ({ st := pe.2.st, outbox := pe.2.outbox } : RProc σ))),
+        crashedNodes := (q.nodes.filter (fun nd => !q.handlers.contains nd.1)).map (·.1),
+        net := (snapshotNet bits q) } [] := by
+  have hlive : q.live = [] := by unfold live; rw [hq]; rfl
+  have hdeliv : q.deliverable = [] := by unfold deliverable; rw [hlive]; rfl
+  refine ⟨netRel_snapshotNet bits q _ hrates hlocNodes hhand hnodes rfl ?_, tprocRel_flat q _ hloc hnodes.nodup rfl,
+    ⟨?_, ?_, ?_, hdel, ?_, ?_⟩,
+    ⟨rfl, List.nodup_nil, List.Pairwise.nil, ?_, ?_, ?_, List.Pairwise.nil, ?_, ?_, List.Pairwise.nil⟩, ⟨?_, ?_⟩⟩
+  · -- crashed
+    intro n
+    simp only [List.mem_map, List.mem_filter, Bool.not_eq_true', List.contains_eq_mem, decide_eq_false_iff_not]
+    rw [amHas_eq, amGet?_isSome_iff]
+    constructor
+    · rintro ⟨x, ⟨hx, hxh⟩, rfl⟩
+      exact ⟨List.mem_map_of_mem hx, hxh⟩
+    · rintro ⟨hm, hh⟩
+      obtain ⟨x, hx, rfl⟩ := List.mem_map.1 hm
+      exact ⟨x, ⟨hx, hh⟩, rfl⟩
   · -- queueWF
     unfold QueueWF; rw [hq]; exact ⟨List.nodup_nil, fun e he => by cases he⟩
   · unfold ClockOk; rw [hq]; intro e he; cases he
   · rw [hc]; intro id hid; cases hid
   · rw [hlive]; intro e he; cases he
   · rw [hlive]; intro e he; cases he
-  · rw [hdeliv]; intro e he; cases he
+  · rw [hlive]; intro e he; cases he
   · intro g hg; cases hg
   · intro g hg; cases hg
   · intro g hg; cases hg
@@ -329,6 +367,7 @@ theorem timedRel_of_quiet [LawfulTime T] (bits : T → Nat) (q : Sim σ T) (hq :
     simp [amGet?]
   · show List.Perm [] _
     rw [hdeliv]; exact List.Perm.nil
+  · intro f hf; cases hf
 
 /-! ## Non-vacuity: a concrete state with one process, one queued timer and one queued message satisfies the
 hypotheses of `sim_step_refines_partial` -/
@@ -391,7 +430,7 @@ theorem q0_procs (p : Nat) (e : SProc Nat Ticks)
   · cases h
 
 theorem rel0 : TimedRel bitsT q0 r0 [] := by
-  refine timedRel_of_quiet bitsT q0 rfl rfl ⟨rfl, rfl, rfl⟩ ⟨rfl, rfl⟩ ?_ ?_ ?_ ?_ (by decide)
+  refine timedRel_of_quiet bitsT q0 rfl rfl ⟨rfl, rfl, rfl⟩ ⟨rfl, rfl⟩ ?_ ?_ ?_ ?_ (List.pairwise_singleton _ _)
   · intro n nd p e hn hp
     obtain ⟨rfl, rfl⟩ := q0_nodes n nd hn
     obtain ⟨rfl, rfl⟩ := q0_procs p e hp
